@@ -1,7 +1,7 @@
 // C09 — serialization round trip of the quantile sketches: KLL (-DC09_Q=1), REQ HRA/LRA (-DC09_Q=2),
 // classic quantiles (-DC09_Q=3); item types float / double / int64 / std::string / custom serde type.
-#ifndef C09_Q
-#error "compile with -DC09_Q=1 (KLL), 2 (REQ) or 3 (classic quantiles)"
+#if !defined(C09_Q) || !defined(C09_QT)
+#error "compile with -DC09_Q=1 (KLL), 2 (REQ) or 3 (classic quantiles) and -DC09_QT=1 (float, double, int64 items) or 2 (std::string, custom serde items)"
 #endif
 #include "vf/core.hpp"
 #include "vf/gen.hpp"
@@ -21,7 +21,7 @@ using namespace c09;
 
 const char* property_id() { return "C09"; }
 unsigned case_timeout_s() { return 120; }
-uint64_t num_cases(bool thorough) { return thorough ? 50000 : 2500; }
+uint64_t num_cases(bool thorough) { return C09_QT == 1 ? (thorough ? 30000 : 1500) : (thorough ? 20000 : 1000); }
 void final_report() {}
 
 // ------------------------------------------------------------------ item types
@@ -215,13 +215,16 @@ static void case_q(Rng& r) {
 }
 
 void run_case(uint64_t idx, Rng& r) {
-  switch ((idx / 16 + idx) % 5) {
+  const uint64_t slot = idx / 16 + idx;
+#if C09_QT == 1
+  switch (slot % 3) {
     case 0: case_q<float>(r); break;
     case 1: case_q<double>(r); break;
-    case 2: case_q<int64_t>(r); break;
-    case 3: case_q<std::string>(r); break;
-    default: case_q<Rec>(r); break;
+    default: case_q<int64_t>(r); break;
   }
+#else
+  if (slot % 2) case_q<std::string>(r); else case_q<Rec>(r);
+#endif
 }
 
 } // namespace vf
